@@ -524,6 +524,8 @@ fn measure(c: &Case, wit: &[Vec<u8>], ssig: &ScriptBuf) -> Option<Measured> {
             let p = pushes(ssig)?;
             (0, p, ssig_len, 0)
         }
+        // key-only descriptors: no miniscript items, only the total weight is judged
+        "pkh" | "wpkh" | "shwpkh" => (-1, Vec::new(), 0, 0),
         _ => {
             if wit.len() < 2 {
                 (-1, wit.to_vec(), 0, 0)
